@@ -7,6 +7,10 @@
 //!        the error path of handle_http_conn (Err(Disconnected) => stop; Err(e) => write_response(&e.into());
 //!        shutdown_write()); the client reads until EOF
 //!        -> <res1> <state1> <res2|-> <state2> <client transcript> rp= ct= c5=<code> rp5= ct5= b5=
+//!   sess <k> <response tokens> x k <response tokens>
+//!        the same on a connection that has already carried k successful responses (each written after setting
+//!        write_state = Response the way read_request does when the state is None; a 1xx leaves it Response);
+//!        the harness reports the reason phrase / content-type text of every earlier response as pr<i>= / pc<i>=
 #[path = "../respcase.rs"]
 mod respcase;
 #[path = "../sio.rs"]
@@ -45,7 +49,22 @@ fn state_name(s: &WriteState) -> &'static str {
 }
 
 fn conn(toks: &[&str]) -> String {
-    let (built, _used) = respcase::build(toks);
+    session(0, toks)
+}
+
+fn sess(toks: &[&str]) -> String {
+    session(toks[0].parse().unwrap(), &toks[1..])
+}
+
+fn session(k: usize, toks: &[&str]) -> String {
+    let mut pre = Vec::new();
+    let mut at = 0;
+    for _ in 0..k {
+        let (b, used) = respcase::build(&toks[at..]);
+        at += used;
+        pre.push(b);
+    }
+    let (built, _used) = respcase::build(&toks[at..]);
     let listener = std::net::TcpListener::bind("127.0.0.1:0").unwrap();
     let addr = listener.local_addr().unwrap();
     let mut client = std::net::TcpStream::connect(addr).unwrap();
@@ -57,7 +76,23 @@ fn conn(toks: &[&str]) -> String {
     });
     let stream = async_net::TcpStream::try_from(server_std).unwrap();
     let mut hc = HttpConn::new(peer, stream);
-    hc.write_state = WriteState::Response;
+    let mut pre_params = String::new();
+    for (i, p) in pre.iter().enumerate() {
+        // read_request: WriteState::None => Response (after a 1xx answer it is still Response)
+        if hc.write_state == WriteState::None {
+            hc.write_state = WriteState::Response;
+        }
+        let r = futures_lite::future::block_on(hc.write_response(&p.response));
+        pre_params.push_str(&format!(
+            " pr{i}={} pc{i}={} pres{i}={}",
+            tok_of_bytes(reason_phrase(p.response.code).as_bytes()),
+            tok_of_bytes(p.response.content_type.as_str().as_bytes()),
+            if r.is_ok() { "ok" } else { "err" }
+        ));
+    }
+    if hc.write_state == WriteState::None || k == 0 {
+        hc.write_state = WriteState::Response;
+    }
     let res1 = futures_lite::future::block_on(hc.write_response(&built.response));
     let st1 = state_name(&hc.write_state);
     // the match of handle_http_conn on the result
@@ -87,7 +122,7 @@ fn conn(toks: &[&str]) -> String {
         _ => panic!("unexpected 500 body kind"),
     };
     format!(
-        "{} {st1} {} {st2} {} rp={} ct={} c5={} rp5={} ct5={} b5={}",
+        "{} {st1} {} {st2} {} rp={} ct={} c5={} rp5={} ct5={} b5={}{pre_params}",
         name(&res1),
         res2.as_ref().map_or("-".to_string(), name),
         rle(&transcript),
@@ -104,6 +139,7 @@ fn main() {
     run_lines(|toks| match toks[0] {
         "ser" => ser(&toks[1..]),
         "conn" => conn(&toks[1..]),
+        "sess" => sess(&toks[1..]),
         _ => "?".to_string(),
     });
 }
